@@ -1,6 +1,7 @@
 import SoyVerif.Ops.Common
 import SoyVerif.Model.AstWire
 import SoyVerif.Model.Registry
+import SoyVerif.Model.CheckErr
 
 namespace SoyVerif.Ops.Check
 open SoyVerif SoyVerif.Ops SoyVerif.Model
@@ -12,7 +13,38 @@ def decFiles (s : String) : Option (List SoyFile) :=
     fs.mapM fun f => (AstWire.decFile f).map fun (n, cs) => { name := n, text := [], body := cs }
   | _ => none
 
+def hexList (l : List Bytes) : String :=
+  if l.isEmpty then "-" else ",".intercalate (l.map Bytes.toHexWire)
+
+open SoyVerif.Model.CheckErr in
+/-- canonical line of an error of CheckDataRefs: kind and payload -/
+def showKind : ErrKind → String
+  | .unusedParams ns => "unusedParams " ++ hexList ns
+  | .headerParam => "headerParam"
+  | .letIj => "letIj"
+  | .callNotFound n => "callNotFound " ++ hexList [n]
+  | .undeclaredParams ns => "undeclaredParams " ++ hexList ns
+  | .missingRequired ns => "missingRequired " ++ hexList ns
+  | .unusedLets ns => "unusedLets " ++ hexList ns
+  | .dataRefNotFound k ps vs => "dataRefNotFound " ++ hexList [k] ++ " " ++ hexList ps ++ " " ++ hexList vs
+
+open SoyVerif.Model.CheckErr in
+def showCompile : Except CompileErr Unit → String
+  | .ok () => "OK"
+  | .error (.reg .namespaceExpected) => "ERR reg namespaceExpected"
+  | .error (.reg .namespaceRequired) => "ERR reg namespaceRequired"
+  | .error (.reg .bothParams) => "ERR reg bothParams"
+  | .error (.reg (.duplicate n)) => "ERR reg duplicate " ++ hexList [n]
+  | .error (.check e) => "ERR chk " ++ hexList [e.template] ++ " " ++ showKind e.kind
+
 def ops : List Op := [
+  -- the error CheckDataRefs / Registry.Add reports: kind and payload (names in the order Go builds them)
+  ("checkerr", fun f => match f with
+    | [_, files] =>
+      match decFiles files with
+      | some fs => showCompile (CheckErr.compileE fs)
+      | none => "BADTREE"
+    | _ => "BADREQ"),
   -- fields: sources (ignored by the model), parsed files
   ("check", fun f => match f with
     | [_, files] =>
